@@ -8,7 +8,7 @@ MANIFEST = (
     "runtime monitor: differential oracle (own long-double volume/area/centroid/AABB/normals, own Jacobi PCA, own topology "
     "oracle) + metamorphic relations (rigid motion, renumbering, uniform scaling incl. bit-exact powers of two, winding flips) "
     "over seeded closed genus-0 meshes; ASan/UBSan on part of the same workload",
-    "Held on every generated mesh of the run: 620 (quick) / 55 000 (thorough) closed genus-0 meshes (icospheres, boxes, UV "
+    "Held on every generated mesh of the run: 620 (quick) / 165 000 (thorough) closed genus-0 meshes, plus 1 600 / 182 000 cells with a history (icospheres, boxes, UV "
     "spheres, prisms, ellipsoids, star-shaped bodies, tetrahedra, octahedra; 4..1280 triangles, jitter, anisotropic stretch, "
     "sizes 1e-6..1e1, distance from the origin 0..1e3 radii, optional unreferenced node), each built 9 times (base + 8 "
     "transformed copies: renumbering, translation, rotation about the centre / about the origin, rigid motion, exact 2^k "
